@@ -179,7 +179,14 @@ class Runner:
                 torch.manual_seed(self.seed * 7919 + self.ver + 1)
                 other = build(self.cls, self.cfg, False)
                 self._randomise(other, 0.2)
-                t.load_state_dict(other.state_dict())
+                # a checkpoint arrives either at the layer itself or — every other time — through the module that contains it
+                # (flow.load_state_dict): only the per-module hook `_load_from_state_dict` runs on the layer then
+                self.nload = getattr(self, 'nload', 0) + 1
+                if self.nload % 2 == 1:
+                    outer = torch.nn.ModuleList([torch.nn.ModuleList([t])])
+                    outer.load_state_dict({'0.0.' + k: v for k, v in other.state_dict().items()})
+                else:
+                    t.load_state_dict(other.state_dict())
                 self.ver += 1
                 self._snap()
             elif op.startswith('cast:'):
